@@ -37,6 +37,7 @@ type worker struct {
 	master    int
 	slave     int
 	term      *vt.Term
+	term2     *vt.Term // same stream, other erase-at-margin behaviour (see vt.Term.LaxEraseAtMargin)
 	mu        sync.Mutex
 	syncCh    chan int
 	syncN     int
@@ -198,6 +199,9 @@ func (w *worker) termLoop() {
 				w.raw = append(w.raw, buf[:n]...)
 			}
 			w.term.Write(buf[:n])
+			if w.term2 != nil {
+				w.term2.Write(buf[:n])
+			}
 			w.mu.Unlock()
 			atomic.AddInt64(&w.outBytes, int64(n))
 		}
@@ -460,16 +464,17 @@ type boundSource struct {
 }
 
 type callRun struct {
-	w        *worker
-	sh       *readline.Shell
-	answers  []Answer
-	idx      int
-	want     Want
-	waits    []Wait
-	nwaits   int
-	log      []LogEntry
-	eofReads int
-	pending  []byte
+	w          *worker
+	sh         *readline.Shell
+	answers    []Answer
+	idx        int
+	want       Want
+	waits      []Wait
+	nwaits     int
+	log        []LogEntry
+	eofReads   int
+	pending    []byte
+	promptLast string
 }
 
 func (w *worker) runJob(job *Job) (tr *Trace) {
@@ -504,6 +509,8 @@ func (w *worker) runJob(job *Job) (tr *Trace) {
 	}
 	w.mu.Lock()
 	w.term = vt.New(cfg.W, cfg.H)
+	w.term2 = vt.New(cfg.W, cfg.H)
+	w.term2.LaxEraseAtMargin = true
 	w.hookTerm()
 	w.raw = w.raw[:0]
 	w.keepRaw = job.Want.Raw
@@ -537,6 +544,7 @@ func (w *worker) runJob(job *Job) (tr *Trace) {
 	}
 	sh := readline.NewShell(opts...)
 	run := &callRun{w: w, sh: sh}
+	run.promptLast = visibleLastLine(cfg.Prompt)
 
 	// Prompts.
 	if cfg.Prompt != "" {
@@ -627,6 +635,8 @@ func (w *worker) runJob(job *Job) (tr *Trace) {
 			}
 			return true
 		}
+	case "never":
+		sh.AcceptMultiline = func(line []rune) bool { return false }
 	case "always":
 		sh.AcceptMultiline = func(line []rune) bool { return true }
 	case "paren":
@@ -1006,6 +1016,16 @@ func (g *gate) Read(p []byte) (int, error) {
 		wt.Screen = w.term.Snapshot()
 		w.mu.Unlock()
 	}
+	if r.want.ScreenCheck && wantObs && wt.Obs != nil && wt.Obs.Kind == "main" {
+		w.mu.Lock()
+		relaxed := wt.Obs.Hint != "" || wt.Obs.Local == "menu-select" || wt.Obs.Local == "isearch"
+		wt.ScreenVerdict = vt.CheckInput(w.term, r.promptLast, []rune(wt.Obs.Line), wt.Obs.Pos, relaxed, 5)
+		if wt.ScreenVerdict != "" && w.term2 != nil && vt.CheckInput(w.term2, r.promptLast, []rune(wt.Obs.Line), wt.Obs.Pos, relaxed, 5) == "" {
+			wt.ScreenVerdict = "" // correct on terminals that do not erase the last cell at a pending wrap
+		}
+		wt.Unknown = append([]string{}, w.term.Unknown...)
+		w.mu.Unlock()
+	}
 	if wantHash {
 		wt.Hash = w.stateHash(r.sh, !r.want.SkipScreen)
 		if inReadKey() {
@@ -1046,4 +1066,25 @@ func (g *gate) Read(p []byte) (int, error) {
 		r.pending = append([]byte{}, ans.Bytes[n:]...)
 	}
 	return n, nil
+}
+
+// visibleLastLine strips SGR sequences and returns the last line of a prompt.
+func visibleLastLine(p string) string {
+	var sb strings.Builder
+	for i := 0; i < len(p); i++ {
+		if p[i] == 0x1b && i+1 < len(p) && p[i+1] == '[' {
+			j := i + 2
+			for j < len(p) && (p[j] < 0x40 || p[j] > 0x7e) {
+				j++
+			}
+			i = j
+			continue
+		}
+		sb.WriteByte(p[i])
+	}
+	s := sb.String()
+	if k := strings.LastIndex(s, "\n"); k >= 0 {
+		s = s[k+1:]
+	}
+	return s
 }
